@@ -153,7 +153,7 @@ func (d *driver) dfs(base Scenario, cap int) int {
 
 func (d *driver) shapeOpts() vh.ShapeOpts {
 	return vh.ShapeOpts{Foreign: true, Dup: true, Subjects: true, Docker: true, Artifact: true, Empty: true,
-		Alias: d.rng.Intn(2) == 0, Titles: d.rng.Intn(2) == 0}
+		Alias: d.rng.Intn(2) == 0, Titles: d.rng.Intn(2) == 0, URLs: d.rng.Intn(3) == 0}
 }
 
 // planExh: every successor relation on <= n nodes, every link-closed initial
